@@ -40,6 +40,7 @@ class TraceRun:
         self.exc_lib_frames = []
         self.calls = {}
         self.region_vars = {}
+        self.type_leak = False
         self.outcome = None        # "completed" | "raised:<cls>"
         self.outcome_msg = ""
         self.steps = 0
@@ -170,6 +171,14 @@ class TraceRun:
             raise W.InjectedFault("injected fault at statement site %d" % site)
         self.check_point(site, loc, model, info)
         self.marks.append((site, len(self.w.rec.events)))
+        if info.get("var") and info.get("kind") == "let":
+            v = loc.get(info["var"])
+            if v is not None and self.w.lc_of(v) is None and info["var"][1] in "IBF":
+                # the library handed back a plain Python value where the plan expects a secret (e.g. a shift by
+                # the whole width returns the int 0): later statements would then exercise plain-Python semantics
+                # and static errors, which no property is about -> the run is not judged
+                self.type_leak = True
+                self.probe("plain_value_in_secret_typed_variable")
         if model and info.get("var") and info.get("rstack"):
             v = loc.get(info["var"])
             lc = self.w.lc_of(v)
@@ -306,7 +315,7 @@ class TraceRun:
             "PrivValFxp": w.fixedpoint.PrivValFxp, "PubValFxp": w.fixedpoint.PubValFxp,
             "LinCombFxp": w.fixedpoint.LinCombFxp,
             "if_then_else": w.branching.if_then_else, "Array": w.array.Array,
-            "__inputs__": self.inputs, "__step__": self.cb_step, "__enter__": self.cb_enter,
+            "__zero__": rt.ConstVal(0), "__inputs__": self.inputs, "__step__": self.cb_step, "__enter__": self.cb_enter,
             "__leave__": self.cb_leave, "__caught__": self.cb_caught, "__set_ie__": self.cb_set_ie,
             "__cv__": self.cb_cv, "__CAUGHT__": (Exception, W.InjectedInterrupt),
             "__packinfo__": self.cb_packinfo, "__packout__": self.cb_packout,
@@ -522,7 +531,7 @@ def run_native(plan, inputs=None, snapshots=None):
     g = {"PrivVal": S, "PubVal": S, "PrivValBool": int, "PubValBool": int, "PrivValFxp": float,
          "PubValFxp": float, "__inputs__": inputs if inputs is not None else [i["v"] for i in plan["inputs"]],
          "__step__": step, "__caught__": lambda k, e, m=(): caught.append((k, type(e).__name__)),
-         "__CAUGHT__": Exception, "Array": NArray, "__flat__": flat_leaves,
+         "__CAUGHT__": Exception, "Array": NArray, "__flat__": flat_leaves, "__zero__": 0,
          "__callend__": lambda n, ret: calls.__setitem__(n, _plain(ret)),
          "__enter__": lambda *a: None, "__leave__": lambda *a: None}
     try:
